@@ -332,6 +332,16 @@ TWICE = {
                           "compile_options=['-DX'])",
     'generated-source-and-object': "object_file('same', 'a.c')\n"
                                    "copy_file('same.o', 'b.c')",
+    # one of SEVERAL outputs of a step named again (first, middle, last)
+    'multi-first-and-copy': "build_step(['same.txt', 'o2.txt'], "
+                            "cmd=['true'])\ncopy_file('same.txt', 'a.c')",
+    'multi-last-and-copy': "build_step(['o1.txt', 'same.txt'], "
+                           "cmd=['true'])\ncopy_file('same.txt', 'a.c')",
+    'two-multi-middle': "build_step(['x1.txt', 'same.txt', 'y1.txt'], "
+                        "cmd=['true'])\nbuild_step(['x2.txt', 'same.txt', "
+                        "'y2.txt'], cmd=['false'])",
+    'copy-then-multi': "copy_file('same.txt', 'a.c')\nbuild_step("
+                       "['same.txt', 'z.txt'], cmd=['true'])",
     'in-submodule': "submodule('sub')",
 }
 
